@@ -296,123 +296,96 @@ B // c71a
 ,// c80
     	}
 ")).
-Eval vm_compute in ("<<<M1627>>>" ++ check (runes_of_ascii "
+Eval vm_compute in ("<<<M1327>>>" ++ check (runes_of_ascii "// top
 options
-{
-StringPrefixLenType	=u64
-
-    ; ArrayPrefixLenType
-
-    = u32
-
-;FixedStringPadFromLeft=
-false ; }
-
-    packet
-Party{
-zchar[
-
-7
-
-    ] OrderId
-, InTail6
-{	repeat
-char[  1
-    ]
-
-    msgKind
-	, char[
-
-    3 ]
-Tail , 
-char[3
-]Flags
-, 
-i16
-
-    tag7
-	, }
-, @rightPad
-
-( '0'
-
-    ) char[  12 ] 
-clOrdID
-	,  }
-packet
-
-    Quote
-
-    {
-
-@leftPad	(	'0' ) 
-char[ 
-11  ]
-
-price
-
-    , repeat InCount7 {	i32
-	x, Party ,u8 Ref ,
-	u8
-
-tag7
-	,
-}	, char[]
-    seqNo,
-Party,  }
-packet
-
-Logon {
-@rightPad  (
-'\x00')
-char[
-    5 ] 
-Note
-	, i16 
-sym , InPrice72 { 
-char[
-
-    9 ]
-Ref , zchar[
-
-    1  ]	venue, }
-
-    ,char[] 
-clOrdID , }
-	root
-	packet
-
-    Reject
-    {
-
-repeat	Logon 
+    // c0
+{ // c1a
+  // c1b
+LittleEndian
+    // c2
+= true // c4a
+  // c4b
+;
+    // c5
+StringPrefixLenType =
+    // c7
+u16 // c8
+; // c9a
+  // c9b
+FixedStringPadChar // c10
+= // c11
+' '
+    // c12
+;
+    // c13
+} // c14
+packet // c15a
+  // c15b
+Logon { // c17a
+  // c17b
+@leftPad ( '0' ) // c21
+char[ // c22a
+  // c22b
+10 // c23
+] // c24
+tag7 // c25a
+  // c25b
 ,
-    @leftPad
-
-    (	' ' )
-char[4 ]
-	seqNo ,
-    zchar[
-	5	]
-
-Acct,
-
-    u32 x , u16 f1
-    @lengthOf(	Body )	, match
-x as Body
-    {
-[
-    169 ,	74] : Quote
-	,
-    45 
-: 
-Party	, 
-7
-:	Logon
+    // c26
+} // c27a
+  // c27b
+root packet
+    // c29
+Ack // c30a
+  // c30b
+{ int32 // c32
+Px , // c34
+uint16
+    // c35
+count // c36
 ,
-
-} ,
-}")).
+    // c37
+string // c38a
+  // c38b
+Qty
+    // c39
+, // c40a
+  // c40b
+string // c41a
+  // c41b
+OrderId // c42
+, string Flags // c45a
+  // c45b
+,
+    // c46
+u8 // c47a
+  // c47b
+x // c48a
+  // c48b
+, // c49a
+  // c49b
+match // c50
+x // c51
+as
+    // c52
+Body
+    // c53
+{ // c54
+[ // c55a
+  // c55b
+58 // c56
+, // c57
+169 // c58a
+  // c58b
+] // c59
+: Logon , // c62a
+  // c62b
+} // c63
+,
+    // c64
+}
+    // c65
+")).
 Eval vm_compute in ("<<<M1815>>>" ++ check (runes_of_ascii "root packet asx {
     leftPad {
         u128 @calculatedFrom(""1""),//x
@@ -647,39 +620,50 @@ Eval vm_compute in ("<<<M1540>>>" ++ check (runes_of_ascii "packet pack {
     //	t
     i16 a1 `a\`,
 }")).
-Eval vm_compute in ("<<<M163>>>" ++ check (runes_of_ascii "options { As = // trailing space 
-zchar[ 4294967296] ; } //	t
-packet len // packet A { u8 x, }
-{ @lengthOf(
-_x) match
-    // c
-    lengthOf
-    as
-//
-// `tick` ""quote"" 'q'
-string_// c
-{
-    [ 4294967296 ]: i64_ ""a	b"": o
-,
+Eval vm_compute in ("<<<M1743>>>" ++ check (runes_of_ascii "// top
+packet A {
+    // c2
+    u8 a,// c5
+}// c6a
+
+// c6b
+packet B {
+    // c9
+    u16 b,
+}// c13a
+
+// c13b
+packet C {
+    // c16
+    u32 c,// c19a
 }
-, leftPad
-    @calculatedFrom( ""`tick`""	)
-// trailing space 
-// `tick` ""quote"" 'q'
-,@leftPad( '\x00' ) repeat charz /// triple
-msg_type
-,
-repeat i8
-Foo , }packet msg_type {
-//x
-// @lengthOf(
-@leftPad (
-'0'
-)
-u64 repeatCount @calculatedFrom(
-""" ++ [28040; 24687]%N ++ runes_of_ascii """) ,// packet A { u8 x, }
-}
-")).
+
+// c20
+root packet M {
+    u16 Kc,
+    // c27
+    u16 Kb,// c30
+    u16 Ka,
+    match Kc as X {
+        // c38
+        9 : A,
+        10 : B,
+    },
+    match Kb as Y {
+        2 : C,
+        // c57
+        1 : A,
+    },// c63a
+    // c63b
+    match Ka as Z {
+        // c68
+        1 : B,
+    },// c74
+    A,// c76
+    B,
+    // c78
+    C,// c80
+}")).
 Eval vm_compute in ("<<<M48>>>" ++ check (runes_of_ascii "root	packet Logon { @calculatedFrom( """" ) @lengthOf( int ) @tag( 3
 ) match _x
 as // a // b
@@ -799,31 +783,33 @@ MetaData charz {
     f32a roots ``,
     float64 x_y_z,
 }")).
-Eval vm_compute in ("<<<M1308>>>" ++ check (runes_of_ascii "packet A {
-    u8 a,
-}
-packet B {
-    u16 b,
-}
-packet C {
-    u32 c,
-}
-root packet M {
-    u16 Kc, u16 Kb, u16 Ka,
-    match Kc as X {
-        9 : A,
-        10 : B,
-    },
-    match Kb as Y {
-        2 : C,
-        1 : A,
-    },
-    match Ka as Z {
-        1 : B,
-    },
-    A, B, C,
-}
-")).
+Eval vm_compute in ("<<<M1615>>>" ++ check (runes_of_ascii "  // top
+  packet // c0a
+  // c0b
+  orderItem// c1a
+	// c1b
+		{
+    u8 	 // c3
+    a// c4
+  , 	 // c5a
+	// c5b
+	}
+// c6
+root
+	packet	// c8a
+      // c8b
+    newOrder  // c9a
+	// c9b
+      {
+orderItem// c11
+      , u8
+    // c13
+
+  x	// c14a
+    	// c14b
+,
+    // c15
+  } 	 // c16")).
 Eval vm_compute in ("<<<M80>>>" ++ check (runes_of_ascii "packet
     len { // trailing space 
 repeat zchar f32a `// not a comment` , @tag( 255 )repeat  Pad { x T
